@@ -8,6 +8,7 @@ open Qx Qx.Driver Qx.C14
   dec <hex> <keyhex|->                   → fail | ok fits=<0|1> <msg>   (indeterminate fields masked when fits=0)
   hmac <keyhex|-> <texthex|->            → hex of the code's HMAC-SHA1
   hmacrfc <keyhex|-> <texthex|->         → hex of RFC 2104 HMAC-SHA1
+  token <hex|->                          → hex of reservationToken() after setReservationToken
   crc <hex|->                            → decimal CRC-32 by the generated table
   crcspec <hex|->                        → decimal CRC-32 by the bitwise definition
 <msg> = `k=v;…` in the fixed order of `showMsg`. -/
@@ -118,6 +119,10 @@ def stepLine (_ : Unit) (line : String) : Unit × String :=
       | none => "fail"
       | some m => let fits := tlvFits b; s!"ok fits={if fits then 1 else 0} {showMsg (!fits) m}"
     | _, _ => "bad-op"
+  | ["token", t] =>
+    match hexArg t with
+    | some t => toHex (setReservationToken t)
+    | none => "bad-op"
   | ["hmac", k, t] =>
     match hexArg k, hexArg t with
     | some k, some t => toHex (hmacCode sha1 64 k t)
